@@ -356,18 +356,18 @@ def check_frame_rule(ck, R):
 
 
 def check(ck):
-    check_exhaustive(ck, "C02.R1")
-    check_order(ck, "C02.R2")
-    check_run_record_replay(ck, "C02.R3")
-    check_replay(ck, "C02.R4")
-    check_exception_surface(ck, "C02.R4")
+    ck.run(check_exhaustive, ck, "C02.R1")
+    ck.run(check_order, ck, "C02.R2")
+    ck.run(check_run_record_replay, ck, "C02.R3")
+    ck.run(check_replay, ck, "C02.R4")
+    ck.run(check_exception_surface, ck, "C02.R4")
     ck.rule("C02.R5", "forget / memento / metadata address the same key as call(): every keyed reference construction in "
                       "base.py passes the function's own context args", 6)
     sibling_reference_sites(ck, "C02.R5")
-    check_frame_rule(ck, "C02.R6")
-    check_typed_identity(ck, "C02.R7", ("storage_base", "metadata", "runner_local", "runner"))
-    check_enum_distinct(ck, "C02.R1")
-    check_json_bytes(ck, "C02.R4", ["storage_base.DefaultCodec.JsonExceptionStrategy.encode", "storage_base.DataSourceMetadataSource.put_memento",
+    ck.run(check_frame_rule, ck, "C02.R6")
+    ck.run(check_typed_identity, ck, "C02.R7", ("storage_base", "metadata", "runner_local", "runner"))
+    ck.run(check_enum_distinct, ck, "C02.R1")
+    ck.run(check_json_bytes, ck, "C02.R4", ["storage_base.DefaultCodec.JsonExceptionStrategy.encode", "storage_base.DataSourceMetadataSource.put_memento",
                                      "storage_base.DefaultCodec.PicklePartition._serialize_index"])
     from .c15 import check_slots
-    check_slots(ck, "C02.R8")
+    ck.run(check_slots, ck, "C02.R8")
